@@ -747,4 +747,53 @@ theorem quote_eq_execute_partial (rate : Dec) (prov : Option Addr) (r : Route) (
 
 end quote
 
+/-! ## T7 — series threading -/
+
+/-- consecutive hops: the first takes `a`, each hop takes exactly what the previous one gave, the last gives `b` -/
+def Chained : Int → List RResult → Int → Prop
+  | a, [], b => a = b
+  | a, r :: rs, b => r.tin.amount = a ∧ Chained r.tout.amount rs b
+
+/-- In a series the output of hop i is the exact input of hop i+1 — forward for exact-in (the stated amount enters the
+    first hop, the result leaves the last), backward for exact-out (the stated amount leaves the last hop, the result
+    enters the first) — and the results are listed in route order in both directions. -/
+theorem series_threading {σ : Type} (f : Denom → Denom → Nat → Int → σ → Res (Int × σ)) (rev : Bool) (rs : List Route) :
+    (∀ a s res rrs s', inspectSeriesF f genIn rev rs a s = .ok (res, rrs, s') →
+      Chained a rrs res ∧ rrs.map (fun x => (x.tin.denom, x.tout.denom)) = rs.map (fun x => (x.din, x.dout))) ∧
+    (∀ a s res rrs s', inspectSeriesB f genOut rev rs a s = .ok (res, rrs, s') →
+      Chained res rrs a ∧ rrs.map (fun x => (x.tin.denom, x.tout.denom)) = rs.map (fun x => (x.din, x.dout))) := by
+  induction rs with
+  | nil =>
+    constructor
+    · intro a s res rrs s' h
+      simp only [inspectSeriesF, Res.ok.injEq, Prod.mk.injEq] at h
+      obtain ⟨e1, e2, _⟩ := h; subst e1 e2
+      exact ⟨rfl, rfl⟩
+    · intro a s res rrs s' h
+      simp only [inspectSeriesB, Res.ok.injEq, Prod.mk.injEq] at h
+      obtain ⟨e1, e2, _⟩ := h; subst e1 e2
+      exact ⟨rfl, rfl⟩
+  | cons r rs ih =>
+    constructor
+    · intro a s res rrs s' h
+      simp only [inspectSeriesF] at h
+      obtain ⟨⟨x, rr, s1⟩, h1, h⟩ := bind_ok h
+      obtain ⟨⟨y, rrs', s2⟩, h2, h⟩ := bind_ok h
+      simp only [Res.ok.injEq, Prod.mk.injEq] at h
+      obtain ⟨e1, e2, _⟩ := h; subst e1 e2
+      obtain ⟨hti, hto⟩ := inspect_result_in f rev r a s x rr s1 h1
+      obtain ⟨c, m⟩ := ih.1 x s1 y rrs' s2 h2
+      refine ⟨⟨by rw [hti], by rw [hto]; exact c⟩, ?_⟩
+      simp only [List.map_cons, m, hti, hto]
+    · intro a s res rrs s' h
+      simp only [inspectSeriesB] at h
+      obtain ⟨⟨x, rrs', s1⟩, h1, h⟩ := bind_ok h
+      obtain ⟨⟨y, rr, s2⟩, h2, h⟩ := bind_ok h
+      simp only [Res.ok.injEq, Prod.mk.injEq] at h
+      obtain ⟨e1, e2, _⟩ := h; subst e1 e2
+      obtain ⟨hti, hto⟩ := inspect_result_out f rev r x s1 y rr s2 h2
+      obtain ⟨c, m⟩ := ih.2 a s x rrs' s1 h1
+      refine ⟨⟨by rw [hti], by rw [hto]; exact c⟩, ?_⟩
+      simp only [List.map_cons, m, hti, hto]
+
 end Sunrise.C03
